@@ -65,7 +65,11 @@ func newLoader() *loader {
 	}
 }
 
-func (l *loader) loadEntity(pEnt *acmelibv1.Entity, entKind EntityKind) *entity {
+func (l *loader) loadEntity(pEnt *acmelibv1.Entity, entKind EntityKind) (*entity, error) {
+	if pEnt == nil {
+		return nil, &ErrIsRequired{Item: entKind.String() + " entity"}
+	}
+
 	var cTime time.Time
 	if pEnt.CreateTime.IsValid() {
 		cTime = pEnt.CreateTime.AsTime()
@@ -79,14 +83,22 @@ func (l *loader) loadEntity(pEnt *acmelibv1.Entity, entKind EntityKind) *entity 
 		desc:       pEnt.Desc,
 		entityKind: entKind,
 		createTime: cTime,
-	}
+	}, nil
 }
 
 func (l *loader) loadNetwork(pNet *acmelibv1.Network) (*Network, error) {
-	net := newNetworkFromEntity(l.loadEntity(pNet.Entity, EntityKindNetwork))
+	netEnt, err := l.loadEntity(pNet.Entity, EntityKindNetwork)
+	if err != nil {
+		return nil, err
+	}
+	net := newNetworkFromEntity(netEnt)
 
 	for _, pBuilder := range pNet.CanidBuilders {
-		l.refCANIDBuilders[pBuilder.Entity.EntityId] = l.loadCANIDBuilder(pBuilder)
+		builder, err := l.loadCANIDBuilder(pBuilder)
+		if err != nil {
+			return nil, err
+		}
+		l.refCANIDBuilders[pBuilder.Entity.EntityId] = builder
 	}
 
 	for _, pAtt := range pNet.Attributes {
@@ -114,7 +126,11 @@ func (l *loader) loadNetwork(pNet *acmelibv1.Network) (*Network, error) {
 	}
 
 	for _, pSigUnit := range pNet.SignalUnits {
-		l.refSigUnits[pSigUnit.Entity.EntityId] = l.loadSignalUnit(pSigUnit)
+		sigUnit, err := l.loadSignalUnit(pSigUnit)
+		if err != nil {
+			return nil, err
+		}
+		l.refSigUnits[pSigUnit.Entity.EntityId] = sigUnit
 	}
 
 	for _, pSigEnum := range pNet.SignalEnums {
@@ -138,14 +154,18 @@ func (l *loader) loadNetwork(pNet *acmelibv1.Network) (*Network, error) {
 	return net, nil
 }
 
-func (l *loader) loadCANIDBuilder(pBuilder *acmelibv1.CANIDBuilder) *CANIDBuilder {
-	builder := newCANIDBuilderFromEntity(l.loadEntity(pBuilder.Entity, EntityKindCANIDBuilder))
+func (l *loader) loadCANIDBuilder(pBuilder *acmelibv1.CANIDBuilder) (*CANIDBuilder, error) {
+	ent, err := l.loadEntity(pBuilder.Entity, EntityKindCANIDBuilder)
+	if err != nil {
+		return nil, err
+	}
+	builder := newCANIDBuilderFromEntity(ent)
 
 	for _, pBuilderOp := range pBuilder.Operations {
 		builder.operations = append(builder.operations, l.loadCANIDBuilderOp(pBuilderOp))
 	}
 
-	return builder
+	return builder, nil
 }
 
 func (l *loader) loadCANIDBuilderOp(pBuilderOp *acmelibv1.CANIDBuilderOp) *CANIDBuilderOp {
@@ -164,7 +184,11 @@ func (l *loader) loadCANIDBuilderOp(pBuilderOp *acmelibv1.CANIDBuilderOp) *CANID
 }
 
 func (l *loader) loadNode(pNode *acmelibv1.Node) (*Node, error) {
-	node := newNodeFromEntity(l.loadEntity(pNode.Entity, EntityKindNode), NodeID(pNode.NodeId), int(pNode.InterfaceCount))
+	ent, err := l.loadEntity(pNode.Entity, EntityKindNode)
+	if err != nil {
+		return nil, err
+	}
+	node := newNodeFromEntity(ent, NodeID(pNode.NodeId), int(pNode.InterfaceCount))
 
 	for _, pAttAss := range pNode.AttributeAssignments {
 		if err := l.loadAttributeAssignment(node, pAttAss); err != nil {
@@ -176,7 +200,11 @@ func (l *loader) loadNode(pNode *acmelibv1.Node) (*Node, error) {
 }
 
 func (l *loader) loadBus(pBus *acmelibv1.Bus) (*Bus, error) {
-	bus := newBusFromEntity(l.loadEntity(pBus.Entity, EntityKindBus))
+	ent, err := l.loadEntity(pBus.Entity, EntityKindBus)
+	if err != nil {
+		return nil, err
+	}
+	bus := newBusFromEntity(ent)
 
 	var typ BusType
 	switch pBus.Type {
@@ -284,7 +312,11 @@ func (l *loader) loadSignalPayload(pSigPayload *acmelibv1.SignalPayload) map[str
 }
 
 func (l *loader) loadMessage(pMsg *acmelibv1.Message) (*Message, error) {
-	msg := newMessageFromEntity(l.loadEntity(pMsg.Entity, EntityKindMessage), MessageID(pMsg.MessageId), int(pMsg.SizeByte))
+	ent, err := l.loadEntity(pMsg.Entity, EntityKindMessage)
+	if err != nil {
+		return nil, err
+	}
+	msg := newMessageFromEntity(ent, MessageID(pMsg.MessageId), int(pMsg.SizeByte))
 
 	sigMap := l.loadSignalPayload(pMsg.Payload)
 	for _, pSig := range pMsg.Signals {
@@ -373,7 +405,11 @@ func (l *loader) loadSignal(pSig *acmelibv1.Signal) (Signal, error) {
 		kind = SignalKindMultiplexer
 	}
 
-	baseSig := newSignalFromEntity(l.loadEntity(pSig.Entity, EntityKindSignal), kind)
+	ent, err := l.loadEntity(pSig.Entity, EntityKindSignal)
+	if err != nil {
+		return nil, err
+	}
+	baseSig := newSignalFromEntity(ent, kind)
 
 	var sig Signal
 	switch tmpPSig := pSig.Signal.(type) {
@@ -552,11 +588,14 @@ func (l *loader) loadSignalType(pSigType *acmelibv1.SignalType) (*SignalType, er
 		kind = SignalTypeKindDecimal
 	}
 
-	ent := l.loadEntity(pSigType.Entity, EntityKindSignalType)
+	ent, err := l.loadEntity(pSigType.Entity, EntityKindSignalType)
+	if err != nil {
+		return nil, err
+	}
 	return newSignalTypeFromEntity(ent, kind, int(pSigType.Size), pSigType.Signed, pSigType.Min, pSigType.Max, pSigType.Scale, pSigType.Offset)
 }
 
-func (l *loader) loadSignalUnit(pSigUnit *acmelibv1.SignalUnit) *SignalUnit {
+func (l *loader) loadSignalUnit(pSigUnit *acmelibv1.SignalUnit) (*SignalUnit, error) {
 	var kind SignalUnitKind
 	switch pSigUnit.Kind {
 	case acmelibv1.SignalUnitKind_SIGNAL_UNIT_KIND_CUSTOM:
@@ -568,14 +607,26 @@ func (l *loader) loadSignalUnit(pSigUnit *acmelibv1.SignalUnit) *SignalUnit {
 	case acmelibv1.SignalUnitKind_SIGNAL_UNIT_KIND_POWER:
 		kind = SignalUnitKindPower
 	}
-	return newSignalUnitFromEntity(l.loadEntity(pSigUnit.Entity, EntityKindSignalUnit), kind, pSigUnit.Symbol)
+
+	ent, err := l.loadEntity(pSigUnit.Entity, EntityKindSignalUnit)
+	if err != nil {
+		return nil, err
+	}
+	return newSignalUnitFromEntity(ent, kind, pSigUnit.Symbol), nil
 }
 
 func (l *loader) loadSignalEnum(pSigEnum *acmelibv1.SignalEnum) (*SignalEnum, error) {
-	sigEnum := newSignalEnumFromEntity(l.loadEntity(pSigEnum.Entity, EntityKindSignalEnum))
+	ent, err := l.loadEntity(pSigEnum.Entity, EntityKindSignalEnum)
+	if err != nil {
+		return nil, err
+	}
+	sigEnum := newSignalEnumFromEntity(ent)
 
 	for _, pVal := range pSigEnum.Values {
-		val := l.loadSignalEnumValue(pVal)
+		val, err := l.loadSignalEnumValue(pVal)
+		if err != nil {
+			return nil, err
+		}
 		if err := sigEnum.AddValue(val); err != nil {
 			return nil, err
 		}
@@ -588,8 +639,12 @@ func (l *loader) loadSignalEnum(pSigEnum *acmelibv1.SignalEnum) (*SignalEnum, er
 	return sigEnum, nil
 }
 
-func (l *loader) loadSignalEnumValue(pVal *acmelibv1.SignalEnumValue) *SignalEnumValue {
-	return newSignalEnumValueFromEntity(l.loadEntity(pVal.Entity, EntityKindSignalEnumValue), int(pVal.Index))
+func (l *loader) loadSignalEnumValue(pVal *acmelibv1.SignalEnumValue) (*SignalEnumValue, error) {
+	ent, err := l.loadEntity(pVal.Entity, EntityKindSignalEnumValue)
+	if err != nil {
+		return nil, err
+	}
+	return newSignalEnumValueFromEntity(ent, int(pVal.Index)), nil
 }
 
 func (l *loader) loadAttribute(pAtt *acmelibv1.Attribute) (Attribute, error) {
@@ -605,7 +660,11 @@ func (l *loader) loadAttribute(pAtt *acmelibv1.Attribute) (Attribute, error) {
 		typ = AttributeTypeEnum
 	}
 
-	baseAtt := newAttributeFromEntity(l.loadEntity(pAtt.Entity, EntityKindAttribute), typ)
+	ent, err := l.loadEntity(pAtt.Entity, EntityKindAttribute)
+	if err != nil {
+		return nil, err
+	}
+	baseAtt := newAttributeFromEntity(ent, typ)
 
 	var att Attribute
 	switch tmpPAtt := pAtt.Attribute.(type) {
